@@ -222,14 +222,15 @@ def openvpn_packet(session: int, remote: int, packet_id: int, ack: int, count: i
     # 64-bit ids: the symbolic 16 bits sit in the low or in the high two bytes (P['HIGH']), the rest is fixed
     if P.get('HIGH') and not (session < 256 and remote < 256):
         return True
-    session = session * 2 ** 56 + 0x08030405060708 if P.get('HIGH') else 0x0102030405060000 + session
-    remote = remote * 2 ** 56 + 0x18131415161718 if P.get('HIGH') else 0x1112131415160000 + remote
+    small = P.get('SMALL')      # ids 0..65535 themselves (zero included)
+    session = session * 2 ** 56 + 0x08030405060708 if P.get('HIGH') else (0 if small else 0x0102030405060000) + session
+    remote = remote * 2 ** 56 + 0x18131415161718 if P.get('HIGH') else (0 if small else 0x1112131415160000) + remote
     if not (0 <= count <= 3 and len(payload) <= 2):
         return True
     dim = P['DIM']
-    if dim != 'session' and session not in (0x0102030405060708, 0x0808030405060708):
+    if dim != 'session' and session not in (0x0102030405060708, 0x0808030405060708, 0x0708):
         return True
-    if dim != 'remote' and remote not in (0x1112131415161718, 0x1818131415161718):
+    if dim != 'remote' and remote not in (0x1112131415161718, 0x1818131415161718, 0x1718):
         return True
     if dim != 'ids' and (packet_id != 7 or ack != 9):
         return True
@@ -464,11 +465,11 @@ def shards(tier, seed):  # pylint: disable=unused-argument,too-many-locals
                 continue
             if kind != 'control' and dim == 'payload':
                 continue
-            for high in ((False, True) if dim in ('session', 'remote') else (False,)):
-                out.append(Shard(MOD, 'openvpn_packet', 'openvpn/%s/%s%s' % (kind, dim, '-high' if high else ''),
-                                 {'KIND': kind, 'DIM': dim, 'HIGH': high}, 300,
+            for high in ((False, True, 'small') if dim in ('session', 'remote') else (False,)):
+                out.append(Shard(MOD, 'openvpn_packet', 'openvpn/%s/%s%s' % (kind, dim, {False: '', True: '-high'}.get(high, '-small')),
+                                 {'KIND': kind, 'DIM': dim, 'HIGH': high is True, 'SMALL': high == 'small'}, 300,
                                  bounds='OpenVPN %s packet: %s symbolic (64-bit ids: %s)' % (
-                                     kind, dim, 'the most significant byte' if high else 'the low two bytes')))
+                                     kind, dim, 'the most significant byte' if high is True else ('values 0..65535' if high else 'the low two bytes'))))
     out.append(Shard(MOD, 'openvpn_many_acks', 'openvpn/many_acks', {}, kind='concrete',
                      bounds='packet-id arrays of 0, 1, 2, 127, 254, 255 entries (natively)'))
     out.append(Shard(MOD, 'pg_ssl_request', 'postgresql/ssl_request', {}, 200, bounds='all 2^64 (length, code) pairs'))
